@@ -46,13 +46,23 @@ func damageImage(t *rt.Tape, r *rt.Run, ms []*arMember, img []byte) ([]byte, str
 		return out, fmt.Sprintf("column %s=%q", c.name, v)
 	case "magic":
 		m := ms[t.Draw(len(ms), "dmg.member")]
-		switch t.Draw(3, "dmg.magic") {
+		switch t.Draw(8, "dmg.magic") {
 		case 0:
 			out[m.HdrOff+58] = 'X'
 		case 1:
 			out[m.HdrOff+59] = 'X'
 		case 2:
 			out[m.HdrOff+58], out[m.HdrOff+59] = 'X', 'Y'
+		case 3:
+			out[m.HdrOff+59] = ' '
+		case 4:
+			out[m.HdrOff+59] = '\r'
+		case 5:
+			out[m.HdrOff+58], out[m.HdrOff+59] = ' ', '`'
+		case 6:
+			out[m.HdrOff+58], out[m.HdrOff+59] = '\n', '`'
+		case 7:
+			out[m.HdrOff+59] = '\t'
 		}
 		r.Fault("stored.header-magic")
 		return out, "header magic"
@@ -154,7 +164,7 @@ func (w arWalk) String() string {
 }
 
 // walkAr iterates the archive on the disk and checks the per-member clauses.
-func walkAr(r *rt.Run, img []byte, disk *simdisk.Disk, label string) (w arWalk, task *rt.Task) {
+func walkAr(r *rt.Run, img []byte, disk io.ReaderAt, label string) (w arWalk, task *rt.Task) {
 	limit := len(img)/60 + 1
 	task = r.Solo("iterator", func() {
 		ar, err := deb.LoadAr(disk)
@@ -261,12 +271,28 @@ func runC15(r *rt.Run, tier string) {
 	r.StepBudget = int64(1000 * (len(bad) + 100))
 
 	// the ar iterator, twice (determinism)
+	seqFlavour := t.Bool(1, 3, "c15.seqflavour")
+	if seqFlavour {
+		r.Probe("reader-with-sequential-state")
+	}
 	var walks []arWalk
 	for i := 0; i < 2; i++ {
 		disk := simdisk.New(r, "archive", bad)
 		disk.DrawProfile()
 		disk.MaxCalls = 4*len(bad) + 4000
-		w, task := walkAr(r, bad, disk, what)
+		var ra io.ReaderAt = disk
+		if seqFlavour {
+			// a bytes.Reader-like object (ReaderAt + Read/Seek/Len); between the
+			// loads the caller reads it sequentially (sniffs the magic, or
+			// checksums the whole file) - ReadAt-based loading must not care
+			s := simdisk.Seq{Disk: disk}
+			if i > 0 || t.Bool(1, 2, "c15.sniff-first") {
+				buf := make([]byte, []int{8, 64, len(bad) + 1}[t.Draw(3, "c15.sniff")])
+				s.Read(buf)
+			}
+			ra = s
+		}
+		w, task := walkAr(r, bad, ra, what)
 		if task.Panic != nil {
 			r.Violate("C15/panic", "ar", "[%s] panic: %v\n%s", what, task.Panic, trimStack(task.PanicStack))
 			return
@@ -334,5 +360,5 @@ func init() {
 		},
 		Assumptions: []string{"inputs are structured corruptions of valid archives and raw bytes drawn from a header-like alphabet; coverage-guided fuzzing (named in the property's quantifier) is a different technique and is not used", "only stored and gzip members are damaged for deb.Load, as the statement excludes the third-party decoders on hostile streams"},
 	})
-	propProbes["C15"] = []string{"iteration-ended-in-error", "iteration-ended-in-eof", "damaged-package-still-loads"}
+	propProbes["C15"] = []string{"reader-with-sequential-state", "iteration-ended-in-error", "iteration-ended-in-eof", "damaged-package-still-loads"}
 }
